@@ -271,7 +271,7 @@ fn case(ctx: &mut Ctx, spdc0: &SPDC, cs: &CrystalSetup, lp: f64, ls: f64, ths: f
     ctx.k("delta_k", &args, &dk.map(|v| v3(&v)).unwrap_or("PANIC".into()));
   }
   ctx.k(
-    "wavevector",
+    "dk_wavevector",
     &format!("{} {} {}", v3(&dir_of(&signal)), fl(ns), fl(w_of(&signal))),
     &v3(&raw_vec(signal.wavevector(signal.frequency(), cs))),
   );
